@@ -46,6 +46,31 @@ fn _get_std_fds(redirects: &[Redirection]) -> (Option<RawFd>, Option<RawFd>) {
     (fd_out, fd_err)
 }
 
+/// Open (and close again) every redirection target of a builtin that is
+/// about to run in the shell process. The print helpers below open the
+/// targets only when the builtin prints something, so without this
+/// `cd dir > log` would not create `log`, and a target that cannot be
+/// opened would go unnoticed.
+pub fn open_redirect_targets(cmd: &Command) -> Result<(), String> {
+    if let Some(from) = &cmd.redirect_from {
+        if from.0 == "<" {
+            if let Err(e) = File::open(&from.1) {
+                return Err(format!("{}: {}", from.1, e));
+            }
+        }
+    }
+    for item in &cmd.redirects_to {
+        if item.2 == "&1" || item.2 == "&2" {
+            continue;
+        }
+        match tools::create_raw_fd_from_file(&item.2, item.1 == ">>") {
+            Ok(fd) => unsafe { libc::close(fd); },
+            Err(e) => return Err(format!("{}: {}", item.2, e)),
+        }
+    }
+    Ok(())
+}
+
 fn _get_dupped_stdout_fd(cmd: &Command, cl: &CommandLine) -> RawFd {
     // if with pipeline, e.g. `history | grep foo`, then we don't need to
     // dup stdout since it is running in a sperated process, whose fd can
